@@ -462,8 +462,8 @@ def check(run, replay=None):
             # second opinion outside the bubble, on the real scheduler and the real clock: the configuration of (two of) the
             # schedules that never came to rest, with consumers that keep receiving; at rest = nothing observable for 30 s
             ft = []
-            for hs in [h for h in pipe_run.HUNG if h["cfg"]["kind"] != "Pipeline"][:2]:
-                for variant in ("drain", "cancel"):
+            for hs in [h for h in pipe_run.HUNG if h["cfg"]["kind"] != "Pipeline" and not h.get("not_run")][:1]:
+                for variant in ("drain", "cancel", "closecancel"):
                     ft.append(pipe_run.run_free(binp, hs, variant, d, tag="free%d" % len(ft)))
             if ft:
                 fv, fres = pipe_run.judge(ft, d, tag="jf")
